@@ -1,8 +1,15 @@
 /-
   Props/C12.lean — URL building substitutes binds exactly and inverts matching.
-  (token-wise substitution and the round trip are added as the proof development proceeds; §5/C12)
+  Token view of the buffer `Leaf.URLPath` writes, token-wise simultaneous substitution
+  (`replace_tokenwise`), map-order independence, dropped annotations, the optional segment,
+  `router.URLPath`'s folding of its `k v k v …` arguments, and the segment view that the
+  round trip of C02 uses.  Lemmas: `Proofs/Url.lean`.  (DESIGN.md §5/C12)
+
+  Not proved here: the full round trip "for any request dispatched to a named route, building with
+  that request's parameters reproduces the request path" — it needs the matcher's theory (C02);
+  `round_trip_segments` below is the URL-building half of it.
 -/
-import Flamego.Proofs.Assoc
+import Flamego.Proofs.Url
 
 namespace Flamego.C12
 
@@ -38,5 +45,362 @@ theorem no_values_skeleton (r : Route) (wo : Bool) : urlPath r [] wo = skeleton 
       | nil => simp [replaceAll.go]
       | cons c cs => simp [replaceAll.go, ih]
   exact this _ _
+
+open Url
+
+/-! ### 1. The token view of the skeleton
+
+`Tok.lit b` is a text written as is, `Tok.hole n` is the placeholder `{n}`.  `skeletonToks r wo`
+has one token per route element (identifier ↦ `lit`; `{bind}` and `{name: …, …}` ↦ `hole` with the
+FIRST parameter's name) and a `lit "/"` per segment. -/
+
+/-- the buffer `URLPath` builds is the rendering of the token list -/
+theorem skeleton_tokens (r : Route) (wo : Bool) : skeleton r wo = render (skeletonToks r wo) :=
+  skeleton_go_eq wo r.segs
+
+/- `BraceFree r` (decidable, `Proofs/Url.lean`): every identifier text and bind name of `r` contains
+   neither `{` nor `}`, and no parameter list is empty.  Every route the parser produces satisfies
+   it: identifiers and bind names are lexed by the `Ident` class, which excludes both braces, and
+   the grammar requires at least one parameter between `{` and `}`. -/
+
+/-- the tokens of a brace-free route are brace-free -/
+theorem skeletonToks_braceFree (r : Route) (wo : Bool) (h : BraceFree r = true) :
+    (skeletonToks r wo).all Tok.braceFree = true :=
+  skeletonToks_go_braceFree wo r.segs h
+
+/-! ### 2. Token-wise substitution -/
+
+/-- fuel sufficiency: `replaceAll` starts with fuel = input length; any fuel that covers the
+    remaining input gives the same result (each step consumes at least one input byte) -/
+theorem replace_fuel (pairs : List (Bytes × Bytes)) (s : Bytes) (fuel : Nat) (h : s.length ≤ fuel) :
+    replaceAll.go pairs fuel s = replaceAll pairs s :=
+  go_fuel pairs s.length s fuel s.length (Nat.le_refl _) h (Nat.le_refl _)
+
+/-- "replaces every `{bind}` of the route by the supplied value, all at once (supplied values are
+    never re-scanned), leaves binds without a value visible as `{bind}`, ignores unknown names":
+    for brace-free tokens and brace-free KEYS (values arbitrary: they may contain braces, other
+    bind names, slashes, or be empty) the replacer acts token by token — a literal is copied, a hole
+    becomes the value listed for its name, or stays `{name}` if there is none; names that are no
+    hole of the route have no effect.  (Distinctness of the keys is not even needed: `lookup`
+    and the replacer both take the first listed pair.) -/
+theorem replace_tokenwise (toks : List Tok) (vals : List (Bytes × Bytes))
+    (ht : toks.all Tok.braceFree = true) (hv : vals.all (fun p => noBrace p.1) = true) :
+    replaceAll (vals.map fun (k, v) => (B "{" ++ k ++ B "}", v)) (render toks) =
+      toks.flatMap fun
+        | .lit b => b
+        | .hole n => match vals.lookup n with
+          | some v => v
+          | none => B "{" ++ n ++ B "}" := by
+  have h := go_toks vals hv toks ht (render toks).length (Nat.le_refl _)
+  have hf : (fun t : Tok => match t with
+        | .lit b => b
+        | .hole n => match vals.lookup n with
+          | some v => v
+          | none => B "{" ++ n ++ B "}") = Tok.subst vals := by
+    funext t; cases t <;> rfl
+  rw [hf]
+  exact h
+
+/-- the same for a route: `URLPath` of a brace-free route is its token list with every hole
+    substituted simultaneously -/
+theorem urlPath_tokenwise (r : Route) (vals : List (Bytes × Bytes)) (wo : Bool)
+    (hr : BraceFree r = true) (hv : vals.all (fun p => noBrace p.1) = true) :
+    urlPath r vals wo = (skeletonToks r wo).flatMap (Tok.subst vals) := by
+  unfold urlPath
+  rw [skeleton_tokens]
+  exact go_toks vals hv _ (skeletonToks_braceFree r wo hr) _ (Nat.le_refl _)
+
+/-- "ignores unknown names": a supplied name that is no hole of the route changes nothing -/
+theorem unknown_value_ignored (r : Route) (vals : List (Bytes × Bytes)) (wo : Bool) (k v : Bytes)
+    (hr : BraceFree r = true) (hv : vals.all (fun p => noBrace p.1) = true) (hk : noBrace k = true)
+    (hunk : Tok.hole k ∉ skeletonToks r wo) :
+    urlPath r ((k, v) :: vals) wo = urlPath r vals wo := by
+  rw [urlPath_tokenwise r _ wo hr (by simp [hk, hv]), urlPath_tokenwise r vals wo hr hv]
+  apply flatMap_congr_mem
+  intro t ht
+  cases t with
+  | lit b => rfl
+  | hole n =>
+    have hne : n ≠ k := fun h => hunk (h ▸ ht)
+    have : (n == k) = false := by simp [hne]
+    simp [Tok.subst, List.lookup_cons, this]
+
+/-! ### 3. Independence of the map iteration order -/
+
+/-- Go builds the replacer's pairs by ranging over a map: with distinct brace-free keys the result
+    is the same for every order of the pairs -/
+theorem replace_perm (toks : List Tok) (vals vals' : List (Bytes × Bytes))
+    (ht : toks.all Tok.braceFree = true) (hv : vals.all (fun p => noBrace p.1) = true)
+    (hd : DistinctKeys vals) (hp : vals.Perm vals') :
+    replaceAll (vals.map fun (k, v) => (B "{" ++ k ++ B "}", v)) (render toks) =
+      replaceAll (vals'.map fun (k, v) => (B "{" ++ k ++ B "}", v)) (render toks) := by
+  have h1 := go_toks vals hv toks ht (render toks).length (Nat.le_refl _)
+  have h2 := go_toks vals' (all_perm hp hv) toks ht (render toks).length (Nat.le_refl _)
+  show replaceAll.go (keyed vals) _ _ = replaceAll.go (keyed vals') _ _
+  rw [h1, h2]
+  apply flatMap_congr_mem
+  intro t _
+  cases t with
+  | lit b => rfl
+  | hole n => simp only [Tok.subst, lookup_perm hp hd n]
+
+theorem urlPath_perm (r : Route) (vals vals' : List (Bytes × Bytes)) (wo : Bool)
+    (hr : BraceFree r = true) (hv : vals.all (fun p => noBrace p.1) = true)
+    (hd : DistinctKeys vals) (hp : vals.Perm vals') :
+    urlPath r vals wo = urlPath r vals' wo := by
+  unfold urlPath
+  rw [skeleton_tokens]
+  exact replace_perm _ vals vals' (skeletonToks_braceFree r wo hr) hv hd hp
+
+/-! ### 4. Annotations are dropped; the optional segment only when asked -/
+
+/-- "drops regex and capture annotations": the token list — hence the URL — is that of the route
+    with every parameter list `{name: …, …}` cut down to the plain bind `{name}` of its first name;
+    no regex text, literal alternative, capture count or further parameter can influence it -/
+theorem annotations_dropped (r : Route) (wo : Bool) :
+    skeletonToks r wo = skeletonToks (stripRoute r) wo :=
+  (skeletonToks_go_strip wo r.segs).symm
+
+/-- the stripped route really carries no annotation: its only parameter lists are empty ones -/
+theorem stripRoute_no_annotations (r : Route) :
+    ∀ s ∈ (stripRoute r).segs, ∀ e ∈ s.elems, ∀ ps, e = Elem.params ps → ps = [] := by
+  intro s hs e he ps hps
+  simp only [stripRoute, List.mem_map] at hs
+  obtain ⟨s0, _, rfl⟩ := hs
+  simp only [List.mem_map] at he
+  obtain ⟨e0, _, rfl⟩ := he
+  cases e0 with
+  | ident t => cases hps
+  | bind n => cases hps
+  | params qs =>
+    cases qs with
+    | nil => simp only [stripElem] at hps; cases hps; rfl
+    | cons q qs => cases hps
+
+theorem urlPath_annotations_dropped (r : Route) (vals : List (Bytes × Bytes)) (wo : Bool) :
+    urlPath r vals wo = urlPath (stripRoute r) vals wo := by
+  unfold urlPath
+  rw [skeleton_tokens, skeleton_tokens, annotations_dropped]
+
+/-- "includes the optional segment only when asked": without the flag the skeleton stops before the
+    first optional segment — it is the full skeleton of the route cut there -/
+theorem optional_only_when_asked (r : Route) :
+    skeleton r false = skeleton ⟨r.segs.takeWhile fun s => !s.optional⟩ true := by
+  rw [skeleton_tokens, skeleton_tokens]
+  show render (skeletonToks.go false r.segs) = render (skeletonToks.go true _)
+  rw [skeletonToks_go_false, skeletonToks_go_true]
+
+/-- with the flag every segment is covered, optional or not -/
+theorem optional_included_when_asked (r : Route) :
+    skeletonToks r true = r.segs.flatMap segToks :=
+  skeletonToks_go_true r.segs
+
+theorem optional_excluded_otherwise (r : Route) :
+    skeletonToks r false = (r.segs.takeWhile fun s => !s.optional).flatMap segToks :=
+  skeletonToks_go_false r.segs
+
+/-! ### 5. `router.URLPath`: the `k v k v …` argument list
+
+`keysOf pairs` are the elements at even positions that have a partner; `lastVal pairs k` is the
+value of the LAST occurrence of `k` among them. -/
+
+/-- "later duplicates of a key win" / the value map in closed form -/
+theorem mk_lookup (pairs : List Bytes) (k : Bytes) :
+    assocGet (Router.urlPath.mk pairs []) k = lastVal pairs k :=
+  mk_get_nil k pairs
+
+/-- the last `k v` of the list decides, whatever came before -/
+theorem later_duplicate_wins (pairs : List Bytes) (k v : Bytes) (h : pairs.length % 2 = 0) :
+    assocGet (Router.urlPath.mk (pairs ++ [k, v]) []) k = some v := by
+  rw [mk_append_even _ _ _ h]
+  simp only [Router.urlPath.mk]
+  exact assocGet_assocSet_same _ k v
+
+/-- "a trailing odd element is ignored" -/
+theorem trailing_odd_ignored (pairs : List Bytes) (x : Bytes) (h : pairs.length % 2 = 0) :
+    Router.urlPath.mk (pairs ++ [x]) [] = Router.urlPath.mk pairs [] := by
+  rw [mk_append_even _ _ _ h]
+  simp only [Router.urlPath.mk]
+
+/-- the value map has distinct keys (it models a Go map) -/
+theorem mk_distinct_keys (pairs : List Bytes) : DistinctKeys (Router.urlPath.mk pairs []) :=
+  mk_distinct pairs [] List.Pairwise.nil
+
+/-- "`withOptional=true` is consumed and switches the flag": the pair is removed from the values
+    (so a bind that happens to be called `withOptional` stays visible) and the optional segment is
+    included; any other value of `withOptional` is an ordinary value and the flag stays off -/
+theorem withOptional_consumed (R : Router) (name : Bytes) (pairs : List Bytes) (r : Route)
+    (hn : assocGet R.named name = some r) :
+    R.urlPath name pairs =
+      if lastVal pairs (B "withOptional") = some (B "true")
+      then some (urlPath r (assocDel (Router.urlPath.mk pairs []) (B "withOptional")) true)
+      else some (urlPath r (Router.urlPath.mk pairs []) false) := by
+  unfold Router.urlPath
+  simp only [hn, mk_lookup]
+  by_cases h : lastVal pairs (B "withOptional") = some (B "true")
+  · simp [h]
+  · have : (lastVal pairs (B "withOptional") == some (B "true")) = false := by simpa using h
+    simp [h, this]
+
+theorem withOptional_removed (pairs : List Bytes) :
+    assocGet (assocDel (Router.urlPath.mk pairs []) (B "withOptional")) (B "withOptional") = none :=
+  assocGet_assocDel_same _ _
+
+/-- `router.URLPath` in closed form, for a brace-free route and brace-free argument names: every
+    hole `{n}` becomes the value of the last `n v` among the arguments (except that a consumed
+    `withOptional` is gone), or stays visible -/
+theorem router_urlPath_tokenwise (R : Router) (name : Bytes) (pairs : List Bytes) (r : Route)
+    (hn : assocGet R.named name = some r) (hr : BraceFree r = true)
+    (hk : (keysOf pairs).all noBrace = true) :
+    R.urlPath name pairs =
+      let wo := decide (lastVal pairs (B "withOptional") = some (B "true"))
+      some ((skeletonToks r wo).flatMap fun
+        | .lit b => b
+        | .hole n =>
+          match (if wo && n == B "withOptional" then none else lastVal pairs n) with
+          | some v => v
+          | none => B "{" ++ n ++ B "}") := by
+  rw [withOptional_consumed R name pairs r hn]
+  have hkeys := mk_keys noBrace pairs [] hk rfl
+  by_cases h : lastVal pairs (B "withOptional") = some (B "true")
+  · simp only [h, ↓reduceIte, decide_true, Bool.true_and]
+    rw [urlPath_tokenwise r _ true hr (assocDel_all _ _ hkeys)]
+    congr 1
+    apply flatMap_congr_mem
+    intro t _
+    cases t with
+    | lit b => rfl
+    | hole n =>
+      simp only [Tok.subst, ← assocGet_eq_lookup]
+      by_cases hnw : n = B "withOptional"
+      · subst hnw; simp [assocGet_assocDel_same]
+      · have : (n == B "withOptional") = false := by simp [hnw]
+        simp only [this, Bool.false_eq_true, ↓reduceIte]
+        rw [assocGet_assocDel_other _ _ _ hnw, mk_lookup]
+        cases lastVal pairs n <;> rfl
+  · simp only [h, ↓reduceIte, decide_false, Bool.false_and, Bool.false_eq_true]
+    rw [urlPath_tokenwise r _ false hr hkeys]
+    congr 1
+    apply flatMap_congr_mem
+    intro t _
+    cases t with
+    | lit b => rfl
+    | hole n =>
+      simp only [Tok.subst, ← assocGet_eq_lookup, mk_lookup]
+      cases lastVal pairs n <;> rfl
+
+/-! ### 6. The segment view (the URL-building half of the round trip of C02)
+
+`instSeg vals s` is the segment `s` with every bind replaced by its value in `vals` (C02 passes the
+request's captured parameters).  For a route of static texts and `{bind}` placeholders whose values
+and texts are slash-free, the URL built with the optional segment splits — exactly as `Tree.Match`
+splits a request path: `splitSlash ∘ trimLeftSlash` — into the instantiated segments. -/
+
+theorem instElem_ident (vals : List (Bytes × Bytes)) (s : Bytes) : instElem vals (.ident s) = s := rfl
+
+theorem instElem_bind (vals : List (Bytes × Bytes)) (n v : Bytes) (h : vals.lookup n = some v) :
+    instElem vals (.bind n) = v := by
+  simp [instElem, elemTok, Tok.subst, h]
+
+/-- the URL is `/seg₁/seg₂/…` with the segments instantiated -/
+theorem urlPath_segments (r : Route) (vals : List (Bytes × Bytes))
+    (hr : BraceFree r = true) (hv : vals.all (fun p => noBrace p.1) = true) :
+    urlPath r vals true = r.segs.flatMap fun s => slash :: instSeg vals s := by
+  rw [urlPath_tokenwise r vals true hr hv, optional_included_when_asked, subst_flatMap_segToks]
+
+theorem urlPath_join (r : Route) (vals : List (Bytes × Bytes))
+    (hr : BraceFree r = true) (hv : vals.all (fun p => noBrace p.1) = true) (hne : r.segs ≠ []) :
+    urlPath r vals true = slash :: joinSlash (r.segs.map (instSeg vals)) := by
+  rw [urlPath_segments r vals hr hv, ← flatMap_slash_eq_join _ (by simpa using hne),
+    List.flatMap_map]
+
+/-- splitting the built URL the way the matcher splits a path gives back the instantiated
+    segments, provided they are slash-free (values and texts without `/`) and the first one is
+    non-empty unless it is the only one (leading slashes are trimmed by the matcher) -/
+theorem round_trip_segments (r : Route) (vals : List (Bytes × Bytes))
+    (hr : BraceFree r = true) (hv : vals.all (fun p => noBrace p.1) = true)
+    (s0 : Segment) (rest : List Segment) (hsegs : r.segs = s0 :: rest)
+    (hfirst : instSeg vals s0 ≠ [] ∨ rest = [])
+    (hsf : ∀ s ∈ r.segs, slashFree (instSeg vals s) = true) :
+    splitSlash (trimLeftSlash (urlPath r vals true)) = r.segs.map (instSeg vals) := by
+  rw [urlPath_join r vals hr hv (by simp [hsegs]), hsegs]
+  have h0 : slashFree (instSeg vals s0) = true := hsf s0 (by simp [hsegs])
+  have htrim : trimLeftSlash (slash :: joinSlash ((s0 :: rest).map (instSeg vals))) =
+      joinSlash ((s0 :: rest).map (instSeg vals)) := by
+    rw [trimLeftSlash]
+    simp only [↓reduceIte, List.map_cons]
+    apply trimLeftSlash_joinSlash _ _ h0
+    rcases hfirst with h | h
+    · exact Or.inl h
+    · exact Or.inr (by simp [h])
+  rw [htrim]
+  apply splitSlash_joinSlash _ (by simp)
+  rw [List.all_eq_true]
+  intro b hb
+  obtain ⟨s, hs, rfl⟩ := List.mem_map.mp hb
+  exact hsf s (hsegs ▸ hs)
+
+/-- slash-freeness of a segment follows from that of its texts and values -/
+theorem instSeg_slashFree_of_elems (vals : List (Bytes × Bytes)) (s : Segment)
+    (h : ∀ e ∈ s.elems, slashFree (instElem vals e) = true) : slashFree (instSeg vals s) = true :=
+  instSeg_slashFree vals s h
+
+/-! ### Non-vacuity: concrete routes and values -/
+
+/-- `/u/{x}-{y: /[0-9]+/}/?{z}` -/
+def exRoute : Route :=
+  ⟨[⟨false, [.ident [117]]⟩,
+    ⟨false, [.bind [120], .ident [45], .params [⟨[121], .re [91, 48, 45, 57, 93, 43]⟩]]⟩,
+    ⟨true, [.bind [122]]⟩]⟩
+
+/-- `x ↦ "{y}"` (looks like another bind), `y ↦ "}{"`, and the unknown name `w ↦ "/"` -/
+def exVals : List (Bytes × Bytes) := [([120], [123, 121, 125]), ([121], [125, 123]), ([119], [47])]
+
+example : BraceFree exRoute = true := by decide
+example : exVals.all (fun p => noBrace p.1) = true := by decide
+example : DistinctKeys exVals := by decide
+
+/-- all at once, values not re-scanned (`{y}` coming from `x` survives), the regex is dropped, `w` is
+    ignored, `{z}` without a value stays visible, optional segment included: `/u/{y}-}{/{z}` -/
+example : urlPath exRoute exVals true =
+    [47, 117, 47, 123, 121, 125, 45, 125, 123, 47, 123, 122, 125] := by
+  rw [urlPath_tokenwise exRoute exVals true (by decide) (by decide)]
+  simp [exRoute, exVals, skeletonToks, skeletonToks.go, segToks, elemTok, Tok.subst, B_slash,
+    B_lbrace, B_rbrace, List.lookup]
+
+/-- an empty value, optional segment not asked for: `/u/` then `-{y}` -/
+example : urlPath exRoute [([120], [])] false = [47, 117, 47, 45, 123, 121, 125] := by
+  rw [urlPath_tokenwise exRoute _ false (by decide) (by decide)]
+  simp [exRoute, skeletonToks, skeletonToks.go, segToks, elemTok, Tok.subst, B_slash,
+    B_lbrace, B_rbrace, List.lookup]
+
+/-- any order of the map gives the same URL -/
+example : urlPath exRoute exVals true = urlPath exRoute exVals.reverse true :=
+  urlPath_perm exRoute exVals _ true (by decide) (by decide) (by decide) (List.reverse_perm _).symm
+
+/-- the round-trip hypotheses are satisfiable: `/u/{x}` with `x ↦ "a"` splits into `["u", "a"]` -/
+example : splitSlash (trimLeftSlash (urlPath ⟨[⟨false, [.ident [117]]⟩, ⟨false, [.bind [120]]⟩]⟩
+    [([120], [97])] true)) = [[117], [97]] := by
+  rw [round_trip_segments _ [([120], [97])] (by decide) (by decide) ⟨false, [.ident [117]]⟩
+    [⟨false, [.bind [120]]⟩] rfl (Or.inl (by decide)) (by decide)]
+  decide
+
+/-- the guard on the KEYS is needed: a name containing braces can swallow several tokens —
+    on `/{a}/{b}` the single name `a}/{b` replaces the whole `{a}/{b}` -/
+example : urlPath ⟨[⟨false, [.bind [97]]⟩, ⟨false, [.bind [98]]⟩]⟩ [([97, 125, 47, 123, 98], [33])] true
+    = [47, 33] := by
+  simp [urlPath, skeleton, skeleton.go, elemSkeleton, replaceAll, replaceAll.go, isPrefixOf',
+    B_slash, B_lbrace, B_rbrace]
+
+/-- `router.URLPath("n", "x","a", "x","b", "withOptional","true", "z")`: the later `x` wins, the
+    flag is consumed and switches the optional segment on, the trailing odd `z` is ignored:
+    `/u/b-{y}/{z}` -/
+example : ({ trees := [], named := [([110], exRoute)] } : Router).urlPath [110]
+    [[120], [97], [120], [98], B "withOptional", B "true", [122]] =
+    some [47, 117, 47, 98, 45, 123, 121, 125, 47, 123, 122, 125] := by
+  rw [router_urlPath_tokenwise _ [110] _ exRoute rfl (by decide)
+    (by rw [B_withOptional, B_true]; decide)]
+  simp [exRoute, lastVal, skeletonToks, skeletonToks.go, segToks, elemTok, B_slash,
+    B_lbrace, B_rbrace, B_withOptional, B_true]
 
 end Flamego.C12
